@@ -4,6 +4,8 @@ The REAL parse and emit run symbolically with preserve_code_transform on; a prob
 CodeTransform it is given.  Byte lengths are symbolic: flen(f, n) is the encoded length of function f after n
 instructions (uninterpreted, strictly increasing), the module prefix is a symbol, LEB128 lengths are the exact function.
 The recorded map must equal the layout that wasm-encoder produces for the recorded code section."""
+import re
+
 import z3
 
 from mirsmt import common, engine, modcmp, pipeline, bodycmp, witness, lin
@@ -105,6 +107,105 @@ def equal_terms(report, pcs, a, b, timeout_ms):
     return s.model() if r == z3.sat else None
 
 
+def run_count_kernel(ctx, report, timeout_ms):
+    """<ModuleFunctions as Emit>::emit, the slice after the function ranges are sorted: code_section_start must be the
+    offset of the first entry minus the LEB128 length of the number of CODE ENTRIES, for every count"""
+    from mirsmt.pipeline import leblen_exact
+    from mirsmt import mir as _mir
+    ob = common.Obligation('O11.k', 'ModuleFunctions::emit (slice from the sort of function_ranges to the assignment of code_section_start): for every number n of emitted code entries (64-bit) and every first-entry offset, code_section_start = offset - LEB128 length of n; any other length the code consults (e.g. of the function arena, which also holds imports) is unconstrained')
+    try:
+        fn = ctx.fn(r'^functions::<impl at src/module/functions/mod\.rs:\d+:\d+: \d+:\d+>::emit$')
+        start = None
+        for bb in fn.blocks:
+            stt, tm = _mir.parsed_block(fn, bb)
+            if tm[0] == 'call' and 'sort_by_key' in tm[2] and 'Range<usize>' in tm[2]:
+                start = bb
+        if start is None:
+            raise Inconclusive('sort of function_ranges not found in ModuleFunctions::emit')
+        I = ctx.interp()
+        n = sym('n_code_entries', 'usize')
+        off = sym('first_entry_offset', 'usize')
+        others = {}
+
+        def m_len(I, st, c, args, cont, depth, site):
+            if 'Range<usize>' in c and 'Id<functions::Function>' in c.replace('id_arena::', ''):
+                return cont(st, n)
+            key = re.sub(r'[^A-Za-z0-9_:<>]', '', c)[:80]
+            if key not in others:
+                others[key] = sym('other_len_%d' % len(others), 'usize')
+            return cont(st, others[key])
+        I.add_model(r'::len$', m_len, 'len(): function_ranges.len() = n (symbolic), any other length = an unconstrained symbol', front=True)
+        I.add_model(r'sort_by_key', lambda I, st, c, args, cont, depth, site: cont(st, unit()), 'sort of function_ranges (order is irrelevant to the slice)', front=True)
+        ends = []
+        I.add_model(r'BTreeMap<ir::InstrLocId, usize> as IntoIterator>::into_iter$', lambda I, st, c, args, cont, depth, site: ends.append(st), 'end of the slice', front=True)
+        st = engine.State()
+        st.pc += [z3.ULT(n.t, z3.BitVecVal(1 << 63, 64)), z3.UGE(off.t, z3.BitVecVal(16, 64)), z3.ULT(off.t, z3.BitVecVal(1 << 40, 64))]
+        ct = Struct('CodeTransform', (VecVal([]), usize(0), Opaque('function_ranges')), ('instruction_map', 'code_section_start', 'function_ranges'))
+        cx = Struct('EmitContext', (Opaque('module'), Opaque('indices'), Opaque('wasm_module'), Opaque('locals'), ct), ('module', 'indices', 'wasm_module', 'locals', 'code_transform'))
+        cxref = I.halloc(st, cx)
+        selfref = I.halloc(st, Struct('ModuleFunctions', (Opaque('arena'),), ('arena',)))
+        locs = {fn.debug.get('cx') or '_2': cxref, fn.debug.get('self') or '_1': selfref}
+        if fn.debug.get('code_section_start_offset') is None:
+            raise Inconclusive('local code_section_start_offset not found')
+        locs[fn.debug['code_section_start_offset']] = off
+        outs = []
+        I.run_from(fn, start, locs, st, lambda s_, v: outs.append((s_, v)))
+        bad = []
+        nq = 0
+        for s_, v in outs:
+            if v is PANIC:
+                sol = z3.Solver()
+                sol.add(*s_.pc)
+                if sol.check() == z3.sat:
+                    bad.append('panic for n = %s: %r' % (sol.model().eval(n.t, True), pc.pipeline_panic_events(s_)[:1]))
+        for s_ in ends:
+            got = I.read_ref(s_, cxref).f[4].f[1]
+            want = off.t - leblen_exact(n.t)
+            sol = z3.Solver()
+            sol.set('timeout', timeout_ms)
+            sol.add(*s_.pc)
+            sol.add(got.t != want)
+            nq += 1
+            r = sol.check()
+            if r == z3.unknown:
+                raise Inconclusive('solver timeout on the count kernel')
+            common.cross_check(sol, r)
+            if r == z3.sat:
+                m = sol.model()
+                bad.append('n = %s code entries%s: code_section_start is off by %s' % (m.eval(n.t, True), ''.join(', %s = %s' % (k[-40:], m.eval(v_.t, True)) for k, v_ in others.items()), m.eval(got.t - want, True).as_signed_long()))
+        report.queries += nq
+        ob.detail = '%d slice paths, %d other lengths consulted' % (len(ends), len(others))
+        if bad:
+            ob.status = 'violated'
+            ob.cex = bad[:3]
+            report.violations.append({'key': 'ct.code_section_start.count-leb', 'what': 'ModuleFunctions::emit: ' + bad[0]})
+        else:
+            ob.status = 'discharged' if ends else 'inconclusive'
+    except Inconclusive as ex:
+        ob.status, ob.detail = 'inconclusive', str(ex)[:400]
+    report.add(ob)
+
+
+def many_functions(nlocal, nimp):
+    """nlocal tiny local functions of different instruction counts (+ nimp imported ones): the function-count LEB of the
+    code section and of the function arena lie on different sides of the 127/128 boundary"""
+    sp = Spec()
+    sp.types = [([], [])]
+    sp.imports = [dict(module=S('e'), name=S('f%d' % i), kind='func', type=0) for i in range(nimp)]
+    sp.funcs = []
+    sp.func_tags = []
+    pos = 2000
+    for k in range(nlocal):
+        tag = 'f%d_tag' % k
+        ops = [OP('I32Const', value=sym(tag, 'i32')), OP('Drop')] + ([OP('Nop')] if k % 2 else []) + [OP('End')]
+        sp.funcs.append(dict(type=0, ops=ops, start=usize(pos)))
+        pos += 1 + len(ops) + 1
+        sp.func_tags.append(tag)
+    sp.exports = [dict(name=S('e%d' % k), kind='Func', index=u32(nimp + k)) for k in (0, nlocal - 1)]
+    sp.code_start = usize(1997)
+    return sp
+
+
 def find_model(report, pcs, cond, timeout_ms):
     """a model of pcs /\\ cond under the exact LEB128 definition, or None"""
     s = z3.Then('simplify', 'solve-eqs', 'ackermannize_bv', 'bit-blast', 'sat').solver()
@@ -120,10 +221,14 @@ def find_model(report, pcs, cond, timeout_ms):
     return s.model() if r == z3.sat else None
 
 
-def run_scenario(ctx, report, name, spec, timeout_ms, table, edit=None):
+def run_scenario(ctx, report, name, spec, timeout_ms, table, edit=None, light=False):
+    """light: many-function descriptions - only code_section_start, the ranges of the first / last function and the
+    pairs of the first / last function are examined"""
     ob = common.Obligation('O11:' + name, 'every (input offset, output offset) pair points at the first byte of the same instruction in the emitted code section; each function range is exactly the function\'s entry; code_section_start is the start of the code section body; inserted instructions appear in no pair')
     try:
         I, P = pc.new_pipeline(ctx)
+        if light:
+            I.fuel_limit = 200000
         st = engine.State()
         cfg = P.default_config(st, preserve_code_transform=z3.BoolVal(True))
         oks, errs, panics = pc.parse_ok_paths(I, P, spec, config=cfg, st=st)
@@ -181,6 +286,8 @@ def run_scenario(ctx, report, name, spec, timeout_ms, table, edit=None):
                 ev_parse_ids = None
                 # ids of local functions are their arena positions: imports first, then locals in input order
                 for k in range(len(spec.funcs)):
+                    if light and k not in (0, len(spec.funcs) - 1):
+                        continue
                     j = pi['func'].get(nimp + k)
                     if j is None:
                         continue
@@ -199,6 +306,9 @@ def run_scenario(ctx, report, name, spec, timeout_ms, table, edit=None):
                 imap = {conc(t.f[0].f[0]): t.f[1].t for t in ct.get('instruction_map').items}
                 want_locs = set()
                 for k, f in enumerate(spec.funcs):
+                    if light and k not in (0, len(spec.funcs) - 1):
+                        want_locs |= set(input_positions(spec, k))
+                        continue
                     j = pi['func'].get(nimp + k)
                     if j is None:
                         continue
@@ -338,8 +448,13 @@ def run(tier, seed, only=None):
     if tier != 'quick':
         items.append(('four-functions', spec_for(4), timeout_ms, table, None))
     items += [(name, sp, timeout_ms, table, None) for name, sp in gl]
+    # function-count boundary: 127 code entries (one-byte count) while the arena holds 128 functions, and 128 entries
+    # (a whole-pipeline run on 127 + 1 functions does not finish within the scenario budget; the count boundary is
+    #  decided by the slice kernel O11.k below for every count instead)
     items = [i for i in items if not only or i[0] in only]
     pc.run_parallel(ctx, report, run_scenario, items)
+    if not only or 'O11.k' in only:
+        engine.run_in_big_stack(lambda: run_count_kernel(ctx, report, timeout_ms))
     report.bounds = {'generated': gen.bounds_text(tier, len(gl)), 'functions': '1, 2 (edited) and 3 local functions (+1 import), with if/else, else-less if, block, loop, nop', 'sizes': 'every encoded length symbolic: flen(function, #instructions) in [1, 2^32), strictly increasing; module prefix in [8, 2^32); hence every LEB128-length boundary (127/128, 16383/16384, ...) of every entry and of the function count is inside the quantified space',
                      'LEB128': 'exact definition conjoined to every layout equality'}
     report.assumptions = ['layout contract of wasm-encoder 0.214.0: Function::encode = LEB(len) ++ body; CodeSection::raw appends LEB(len) ++ bytes; Module::section = id, LEB(size), payload; code payload = LEB(count) ++ entries',
